@@ -767,3 +767,24 @@ package lisp
 //@   requires rtOK(env) && len(env.Runtime.Stack.Frames) >= 1 && argsOK(args, 1)
 //@   assert-at FunCall [frame-marked-terminal-before-the-call] env.Runtime.Stack.Frames[len(env.Runtime.Stack.Frames)-1].Terminal
 //@   property C02
+
+// ---------------------------------------------------------------- C11: sharing, copying, mutation
+
+//@ func clampCap
+//@   ensures  [same-window-no-spare-capacity] arr(result) == arr(cells) && off(result) == off(cells) && len(result) == len(cells) && cap(result) == len(cells)
+//@   modifies nothing
+//@   nopanic
+//@   property C11
+
+//@ func clampCapBytes
+//@   ensures  [same-window-no-spare-capacity] arr(result) == arr(b) && off(result) == off(b) && len(result) == len(b) && cap(result) == len(b)
+//@   modifies nothing
+//@   nopanic
+//@   property C11
+
+//@ func builtinAppend
+//@   requires rtOK(env) && argsOK(args, 2)
+//@   assert-at Array [vector-result-owns-its-storage] len(arg1) > 0 ==> fresh(arg1)
+//@   assert-at QExpr [list-result-owns-its-storage] fresh(arg0)
+//@   modifies nothing
+//@   property C11 C09
